@@ -1603,7 +1603,8 @@ func random(suite string, k int) {
 	case "file":
 		mode = "file"
 	case "env":
-		mode = []string{"env", "envalt", "env", "envalt", "menv", "menvfile"}[r.Intn(6)]
+		// 1 in 6 through config.Manager (those cases cost ~10x a section case)
+		mode = []string{"env", "envalt", "env", "envalt", "env", "envalt", "env", "envalt", "env", "envalt", "menv", "menvfile"}[r.Intn(12)]
 	}
 	runSet(setCase{mode, fr.s, fr.f, p.json, p.vc, noise})
 }
